@@ -259,8 +259,17 @@ func guardedAccesses(c *Ctx, r *R, prefix, pkgSuffix, typ, field, mu string) {
 					fa = f
 				}
 			}
-			if fa == nil || fieldName(fa.X.Type(), fa.Field) != field || !isNamedType(fa.X.Type(), pkgSuffix, typ) {
+			if fa == nil || fieldName(fa.X.Type(), fa.Field) != field {
 				return
+			}
+			owner := fa.X
+			if !isNamedType(owner.Type(), pkgSuffix, typ) {
+				// the field lives in a struct that the type holds by value (t.armed.gen): the guarding mutex is the outer one
+				inner, ok := owner.(*ssa.FieldAddr)
+				if !ok || !isNamedType(inner.X.Type(), pkgSuffix, typ) {
+					return
+				}
+				owner = inner.X
 			}
 			base := fa.X
 			for {
@@ -306,7 +315,7 @@ func guardedAccesses(c *Ctx, r *R, prefix, pkgSuffix, typ, field, mu string) {
 				kind = "write"
 			}
 			key := prefix + "|" + c.nameOf(fn) + "|" + kind + ":" + path(fa) + "#" + itoa(n)
-			want := path(fa.X) + "." + mu
+			want := path(owner) + "." + mu
 			mode, ok := held[in][want]
 			good := ok && (!write || mode == 'W')
 			r.ok(good, key, in.Pos(), kind+" of "+typ+"."+field+" without holding "+want+" (held: "+held[in].String()+")")
